@@ -175,6 +175,12 @@ def run_family(rep, prop, plugins, opnames, rule, classify=None, known_text=None
     kf = known_findings()
     for k, (cnt, op, impl, spec) in sorted((hits or {}).items()):
         entry = kf.get(k)
+        if entry is None:
+            # classes are matched through the witness_class lists of the known findings
+            for e in kf.values():
+                if k in (e.get("witness_class") or []):
+                    entry = e
+                    break
         what = (known_text or {}).get(k, k)
         if entry and entry.get("status") == "known":
             rep.known.append("%s %s: replayed on %d ops, e.g. impl=%s spec=%s on %s" % (k, what, cnt, impl[:80], spec[:80], op.strip()[:160]))
